@@ -33,6 +33,7 @@ def c01(ctx):
     sem.trace_batches(ctx, "mixed", "MachineTrace_C01.cfg", n, b)
     sem.trace_batches(ctx, "multi", "MachineTrace_C01.cfg", n, b)
     sem.scale_sem(ctx, "multi", "MachineTrace_C01.cfg", scale(ctx, 1500, 15000))
+    sem.repo_corpus(ctx, "MachineTrace_C01.cfg")
     return ctx.finish("model_checking", sem.NONTRIV_RULE)
 
 
@@ -43,6 +44,7 @@ def c02(ctx):
     n, b = scale(ctx, (2500, 4), (6000, 16))
     sem.trace_batches(ctx, "mixed", "MachineTrace_C02.cfg", n, b)
     sem.trace_batches(ctx, "pair", "MachineTrace_C02.cfg", n, b)
+    sem.repo_corpus(ctx, "MachineTrace_C02.cfg")
     return ctx.finish("model_checking", sem.NONTRIV_RULE)
 
 
@@ -53,6 +55,7 @@ def c03(ctx):
     n, b = scale(ctx, (2500, 6), (6000, 24))
     sem.trace_batches(ctx, "exact", "MachineTrace_C03.cfg", n, b)
     sem.scale_sem(ctx, "exact", "MachineTrace_C03.cfg", scale(ctx, 1500, 15000))
+    sem.repo_corpus(ctx, "MachineTrace_C03.cfg")
     return ctx.finish("model_checking", sem.NONTRIV_RULE)
 
 
@@ -135,6 +138,7 @@ def c07(ctx):
                 raise Infra("candidate did not reproduce")
     n, b = scale(ctx, (2500, 4), (6000, 16))
     sem.trace_batches(ctx, "pair", "MachineTrace_C07.cfg", n, b)
+    sem.repo_corpus(ctx, "MachineTrace_C07.cfg")
     return ctx.finish("model_checking", "exhaustive: all sender/receiver lists up to the bound (Reconcile.tla initial states, equal sums) fed to interpreter.Reconcile; "
                       "plus random whole sends of the 'pair' corpus judged on flow matrices; non-trivial = >= 2 postings")
 
@@ -182,6 +186,7 @@ def c12(ctx):
     n, b = scale(ctx, (3000, 4), (8000, 16))
     sem.trace_batches(ctx, "illtyped", "MachineTrace_C12.cfg", n, b)
     sem.trace_batches(ctx, "mixed", "MachineTrace_C12.cfg", n, max(2, b // 2))
+    sem.repo_corpus(ctx, "MachineTrace_C12.cfg")
     return ctx.finish("fault_enumeration", "two families: (a) store faults - for every program of the Machine.tla family and of a random origin-heavy corpus, "
                       "a failure injected at the k-th store call for every k (TLC enumerates k and the reply shapes of the calls before it); "
                       "(b) error-free-parsing programs, well-typed and broken in 0-2 places (types, names, arity, variable texts, assets, zero denominators), "
